@@ -4,7 +4,7 @@ import z3
 
 from .engine import model, fallback, b_and, b_or, b_not, VALUE_TYPES
 from .values import *
-from .models_core import (some, none, ok, err, variant, payload, as_iter, iter_obj, ListIter, AS_ITER, COLLECTORS, VEC_LEN,
+from .models_core import (some, none, ok, err, variant, payload, as_iter, iter_obj, ListIter, AS_ITER, AS_ITER_REF, COLLECTORS, VEC_LEN,
                           DEFAULTS, deep_eq, DEEP_EQ, Iter)
 from .models_fvm import key_term, key_eq
 
@@ -173,6 +173,7 @@ def _pairs(E, d, by_ref, mut=False):
 
 
 AS_ITER[DictM] = lambda E, d: ListIter(_pairs(E, d, False))
+AS_ITER_REF[DictM] = lambda E, d, mut: ListIter(_pairs(E, d, True, mut))
 
 
 @model('re:^' + RX + '::(iter|iter_mut|keys|values|values_mut|into_keys|into_values|drain)$',
